@@ -3132,7 +3132,13 @@ class TypedDictType(ProperType):
     def write(self, data: WriteBuffer) -> None:
         write_tag(data, TYPED_DICT_TYPE)
         self.fallback.write(data)
-        write_type_map(data, self.items)
+        # The order of items is significant (it is shown in error messages and determines
+        # the constructor signature), so we can't use write_type_map() that sorts the keys.
+        write_tag(data, DICT_STR_GEN)
+        write_int_bare(data, len(self.items))
+        for item_name, item_type in self.items.items():
+            write_str_bare(data, item_name)
+            item_type.write(data)
         write_str_list(data, sorted(self.required_keys))
         write_str_list(data, sorted(self.readonly_keys))
         write_bool(data, self.is_closed)
